@@ -12,16 +12,16 @@ from . import ramses_model as rm
 @st.composite
 def level_preds(draw, levelmax):
     t = draw(st.sampled_from(["le", "le", "lt", "eq", "band", "ge", "ne", "set"]))
+    as_int = draw(st.sampled_from([False, False, False, True]))      # the predicate returns a 0/1 mask instead of booleans
     if t == "ne":
-        return {"t": t, "k": draw(st.integers(1, levelmax)), "as_int": False}
+        return {"t": t, "k": draw(st.integers(1, levelmax)), "as_int": as_int}
     if t == "set":
         return {"t": t, "ks": sorted(draw(st.lists(st.integers(1, levelmax), min_size=1, max_size=3, unique=True))),
-                "as_int": False}
+                "as_int": as_int}
     if t == "band":
         a = draw(st.integers(0, max(levelmax - 1, 0)))
         b = draw(st.integers(a + 2, levelmax + 2))
-        return {"t": t, "a": a, "b": b}
-    as_int = draw(st.sampled_from([False, False, False, True]))      # the predicate returns a 0/1 mask instead of booleans
+        return {"t": t, "a": a, "b": b, "as_int": as_int}
     if t == "lt":
         return {"t": t, "k": draw(st.integers(2, levelmax + 1)), "as_int": as_int}
     return {"t": t, "k": draw(st.integers(1, levelmax)), "as_int": as_int}
